@@ -10,6 +10,7 @@ from engine import pat
 from engine.util import calls_with_nodes, where, own_nodes
 
 RULES = {
+    "R-11.7": "retention decisions are atomic with respect to readers: every access to the version list, the reader set and the pruning policy sits under the version lock (C12 R-12.1 adopted), so a version cannot be pruned between a reader choosing it and registering",
     "R-11.6": "a committed version freezes every node the transaction touched: `changed` holds the validated map keys (C10 R-10.2 adopted) and copy-on-write records every fresh node (C10 R-10.5 adopted), so ImmutableVersion finds and freezes each of them",
     "R-11.5": "snapshot isolation of B-tree zones rests on copy-on-write ownership in dns/btree.py (C19 R-19.1), and immutable rdatasets rest on dns.immutable.Dict copying its source (C07 R-07.8): both are adopted",
     "R-11.1": "every method with a non-empty write set is, in each immutable subclass, overridden by a raising body or blocked by construction (field rebound to a frozen container lacking the operation; class is @immutable)",
@@ -330,6 +331,7 @@ def run(model, rep, tier):
                   "until some later event", stmt="always-prunes")
     rep.assume("tuple and collections.abc.Mapping provide no mutating methods (interpreter builtins, introspected with hasattr)")
     rep.assume("a frozen dns.btree.BTreeDict rejects mutation (decided under C19 R-19.2)")
+    rep.share(model, "C12", {"R-12.1"}, "R-11.7", "reader(id=N) pins version N only if pruning cannot run concurrently with its lookup-and-register step")
     rep.share(model, "C10", {"R-10.2", "R-10.5"}, "R-11.6", "ImmutableVersion.__init__ looks every name of version.changed up in version.nodes and replaces the node by a frozen one")
     rep.share(model, "C19", {"R-19.1"}, "R-11.5", "a reader's version shares B-tree nodes with every later writable version")
     rep.share(model, "C07", {"R-07.8"}, "R-11.5", "committed rdatasets are frozen by wrapping their items in dns.immutable.Dict")
